@@ -72,6 +72,12 @@ type c13Case struct {
 	// Channel.Reset() first - what a client does when it is done with an exchange; it returns
 	// at once whatever the fill level, and what follows (cancel, Close) behaves as without it
 	ResetFirst bool `json:"reset_called_first,omitempty"`
+	// Cause: (cancel-recv) the caller's context is cancelled WITH A CAUSE (context.WithCancelCause
+	// / WithTimeoutCause): the error returned still wraps the context's error (ctx.Err())
+	Cause int `json:"context_with_cause,omitempty"` // 1 cancel cause, 2 deadline with cause
+	// MainClosedFirst: (connclose) the application closed the main channel itself before it
+	// closes the connection
+	MainClosedFirst bool `json:"main_channel_closed_first,omitempty"`
 }
 
 // env is one connection with its peer.
@@ -292,8 +298,30 @@ func runCancelRecv(c c13Case) *vh.Failure {
 	defer cancelOwn()
 	cancelFn := cancelOwn
 	wantErr := context.Canceled
-	if c.Conn {
+	switch {
+	case c.Conn:
 		cancelFn = e.cancel
+	case c.Cause == 1:
+		var cc context.CancelCauseFunc
+		own, cc = context.WithCancelCause(context.Background())
+		cancelFn = func() { cc(errors.New("user pressed ctrl-c")) }
+		defer cancelFn()
+		vh.Label("recv:context-cancelled-with-a-cause")
+	case c.Cause == 2:
+		// the deadline does the cancelling (the case's delay is the timeout)
+		var stop context.CancelFunc
+		d := time.Duration(c.DelayUs) * time.Microsecond
+		if c.Before {
+			d = 0
+		}
+		own, stop = context.WithTimeoutCause(context.Background(), d, errors.New("statement timeout of the application"))
+		defer stop()
+		cancelFn = func() {}
+		wantErr = context.DeadlineExceeded
+		if c.Before {
+			<-own.Done()
+		}
+		vh.Label("recv:context-deadline-with-a-cause")
 	}
 	if c.More {
 		go func() {
@@ -721,6 +749,14 @@ func runConnClose(c c13Case) *vh.Failure {
 		}
 		vh.Label("connclose:a-lower-channel-was-closed-earlier")
 	}
+	if c.MainClosedFirst {
+		var err error
+		ok, pan, _ := timed(5*time.Second, func() { err = chans[0].Close() })
+		if !ok || pan != nil {
+			return vh.Failf("C13/close", "%v: Close of the main channel: ok=%v panic=%v err=%v", c, ok, pan, err)
+		}
+		vh.Label("connclose:main-channel-closed-first")
+	}
 	// state: some packages queued on the last channel (possibly beyond capacity)
 	last := chans[len(chans)-1]
 	e.sendPackages(last.VerifID(), 0, c.Sent, false)
@@ -841,6 +877,9 @@ func genCase(rt *rapid.T, kind string) c13Case {
 		c.Until = rapid.Bool().Draw(rt, "until")
 		c.Conn = rapid.IntRange(0, 2).Draw(rt, "connctx") == 0
 		c.Before = rapid.Bool().Draw(rt, "before")
+		if !c.Conn {
+			c.Cause = rapid.SampledFrom([]int{0, 0, 1, 2}).Draw(rt, "cause")
+		}
 		if c.Until && rapid.IntRange(0, 2).Draw(rt, "failcb") == 0 {
 			// needs at least one package to fail on, and no further packets
 			c.FailCB, c.More = true, false
@@ -884,6 +923,7 @@ func genCase(rt *rapid.T, kind string) c13Case {
 		}
 	case "connclose":
 		c.NChan = rapid.IntRange(1, 4).Draw(rt, "channels")
+		c.MainClosedFirst = rapid.IntRange(0, 3).Draw(rt, "mainclosedfirst") == 0
 		if rapid.IntRange(0, 2).Draw(rt, "gap") == 0 {
 			c.NChan = rapid.IntRange(3, 6).Draw(rt, "channels")
 			c.ClosedEarlier = rapid.IntRange(1, c.NChan-2).Draw(rt, "closed-earlier")
